@@ -30,6 +30,7 @@ RULE = (
     'Every second system is also analysed with the automatically chosen site radius (site_radius omitted): the radius and the states must be invariant.  Non-trivial = the system has at least 2 jumps and the translation moves at least one atom-frame through a '
     'cell face; distinct = SHA-1 of the original representation.'
 )
+RULE += ' Added in rounds 5-10: automatic radius under all transformations; coordinates 1e-12..3e-9 below voxel edges with a steered translation; dyadic samples exactly on voxel edges; costs of dijkstra / bellman-ford / dijkstra-exp paths compared between representations.'
 ASSUMPTIONS = [
     'comparisons between two runs of the real code (metamorphic); floats at rtol 1e-9, integer arrays exactly',
     'RDF comparison is skipped (and counted) when a pair distance lies within 1e-7 A of a bin edge in the original representation',
